@@ -20,11 +20,13 @@ GENERATED = ["Monitor.lean"]
 
 
 def gen_case(rng, level=None):
-    level = level or rng.choice(["unit", "unit", "udp", "tcp", "tcpsrv", "dtlssrv", "tcpsrvdef", "dtlssrvdef"])
-    stream = level in ("tcp", "tcpsrv", "tcpsrvdef")
-    can_fail = level in ("unit", "udp")
+    level = level or rng.choice(["unit", "unit", "udp", "tcp", "tcpsrv", "dtlssrv", "tcpsrvdef", "dtlssrvdef", "udpnc", "tcpnc"])
+    stream = level in ("tcp", "tcpsrv", "tcpsrvdef", "tcpnc")
+    can_fail = level in ("unit", "udp", "udpnc")
     period = rng.choice([100, 1000, 1_000_000, 16_000_000_000 // 3])
     n = rng.choice(["-", "0", "1", "2", "3"])
+    if level.endswith("nc") and n == "-":
+        n = rng.choice(["0", "1", "2"])      # the give-up of a KEEP-ALIVE whose callback leaves the connection open
     if level == "tcpsrvdef":      # the stream server's DefaultConfig: keep-alive, 2 retries over 16 s
         period, n = 16_000_000_000 // 3, "2"
     elif level == "dtlssrvdef":   # the DTLS server's DefaultConfig: plain monitor, 16 s
@@ -159,6 +161,12 @@ def explore(ctx, art):
         if o.startswith("panic") or o in ("bad-op", "conn-error") or "panic" in o:
             ctx.violations.append(common.Violation("no-crash", "C18:" + l, "%s -> %s" % (l, o), {"input": cases[ci][0] + ["end"], "observed": o}))
             continue
+        if "leak-pending-ping" in o:
+            first = sum(1 for k in range(i + 1) if owner[k] == ci)
+            ctx.violations.append(common.Violation("monitor", "C18:give-up-leaves-pending-ping",
+                                                   "%s (%s): the keep-alive gave up (the application keeps the connection open) and the entry of its last, unanswered ping is still registered: %s" % (l, cases[ci][0][0], o),
+                                                   {"input": cases[ci][0][:first] + ["end"], "observed": o}))
+            continue
         if "close-talkative" in o:
             # server levels: the connection of the peer that is heard from right before every tick was closed by its monitor
             first = sum(1 for k in range(i + 1) if owner[k] == ci)
@@ -220,20 +228,20 @@ def explore(ctx, art):
 
 
 
-def server_peers_check(ctx, test_exe, driver, rng, n, prop, clause):
+def server_peers_check(ctx, test_exe, driver, rng, n, prop, clause, levels=("tcpsrv", "dtlssrv", "tcpsrvdef", "dtlssrvdef")):
     """The server levels of C18 as an isolation run for another property (C10): three peers on one real tcp/dtls server -
     the observed one, one always silent, one heard from before every tick; the observed peer's connection must behave as
     if it were alone (judge = the single-connection reference monitor; Props/C18 server_conn_is_single_conn)."""
     lines, owner, cases = [], [], []
     for ci in range(n):
-        cl, kinds, level = gen_case(rng, rng.choice(["tcpsrv", "dtlssrv", "tcpsrvdef", "dtlssrvdef"]))
+        cl, kinds, level = gen_case(rng, rng.choice(list(levels)))
         cases.append(cl)
         for l in cl:
             lines.append(l)
             owner.append(ci)
     lines.append("end")
     owner.append(-1)
-    impl = common.run_test_harness(ctx, test_exe, "TestC18", lines, timeout=900, tag="srvpeers")
+    impl = common.run_test_harness(ctx, test_exe, "TestC18", lines, timeout=900, tag="srvpeers" if "tcpsrv" in levels else "monitored")
     if impl is None or len(impl) != len(lines) or not driver:
         return
     dl = [strip_level(l) for l in lines]
@@ -248,7 +256,9 @@ def server_peers_check(ctx, test_exe, driver, rng, n, prop, clause):
         if ci < 0 or ci in seen or l.split()[0] in ("cfg", "end"):
             continue
         why = None
-        if "close-talkative" in o:
+        if "leak-pending-ping" in o:
+            why = "the keep-alive gave up (the application keeps the connection open) and the entry of its last, unanswered ping is still registered"
+        elif "close-talkative" in o:
             why = "the connection of a peer that had sent a message right before this tick was closed"
         elif o.startswith("panic") or o in ("bad-op", "conn-error"):
             why = o
@@ -260,7 +270,7 @@ def server_peers_check(ctx, test_exe, driver, rng, n, prop, clause):
                 break
             first = sum(1 for k in range(i + 1) if owner[k] == ci)
             ctx.violations.append(common.Violation(clause, "%s:server-peers:%s" % (prop, cases[ci][0].split()[1]),
-                                                   "three peers on one server (%s), observed peer: %s: observed `%s`: %s" % (cases[ci][0], l, o, why),
+                                                   "monitored connection (%s): %s: observed `%s`: %s" % (cases[ci][0], l, o, why),
                                                    {"input": cases[ci][:first] + ["end"], "observed": o, "server_peers": True}))
     ctx.cov["server_peers_cases"] = n
     ctx.count("server-peers-histories", n)
